@@ -20,6 +20,8 @@ declare -A CHECKS=(
  [r7c-m1]="C01" [r7c-m2]="C11" [r7c-m3]="C11" [r7c-m4]="C11" [r7d-m1]="C15" [r7d-m2]="C19" [r7d-m3]="C19" [r7d-m4]="C19"
  [r8a-m1]="C05 C04" [r8a-m2]="C15" [r8a-m3]="C12" [r8a-m4]="C01" [r8b-m1]="C14" [r8b-m2]="C12" [r8b-m3]="C14" [r8b-m4]="C12"
  [r8c-m1]="C12" [r8c-m2]="C12" [r8c-m3]="C11 C01" [r8d-m1]="C05" [r8d-m2]="C11" [r8d-m3]="C01" [r8d-m4]="C04"
+ [r9a-m1]="C04" [r9a-m2]="C01" [r9a-m3]="C04" [r9a-m4]="C12" [r9b-m1]="C12" [r9b-m2]="C04" [r9b-m3]="C12"
+ [r9c-m1]="C01" [r9c-m2]="C14" [r9c-m3]="C04 C05" [r9c-m4]="C04" [r9d-m1]="C14 C04" [r9d-m2]="C04" [r9d-m3]="C13" [r9d-m4]="C11"
  [c15c]="C15" [c15d-m1]="C15" [c15d-m2]="C19 C15" [c15d-m3]="C15" [c19b]="C19" [c19c]="C19" [c05b]="C05" [c04c]="C04"
 )
 for d in seeded/*/; do
